@@ -4,12 +4,13 @@
 using namespace rg;
 
 // a case = table + storage content + touched marks + one block write
-struct Case { TableD t; std::vector<std::vector<uint16_t>> content; std::vector<bool> touched; uint32_t addr; uint32_t n; std::vector<uint16_t> words; };
+struct Case { TableD t; std::vector<std::vector<uint16_t>> content; std::vector<bool> touched; uint32_t addr; uint32_t n; std::vector<uint16_t> words; int pre = 0; };   // pre k > 0: before the write register_sanitise ran while the callback-backed areas' device stopped answering after k-1 reads
 static Case g_cur;
 static std::string ser_case(const Case &c) {
     std::string s = rm::ser(c.t);
     for (size_t i = 0; i < c.content.size(); i++) { s += vp::fmt("content %zu", i); for (uint16_t w : c.content[i]) s += vp::fmt(" %u", w); s += "\n"; }
     s += "touched"; for (bool b : c.touched) s += b ? " 1" : " 0"; s += "\n";
+    if (c.pre) s += vp::fmt("pre %d\n", c.pre);
     s += vp::fmt("bw %u %u", c.addr, c.n); for (uint16_t w : c.words) s += vp::fmt(" %u", w); s += "\n";
     return s;
 }
@@ -48,6 +49,14 @@ static std::string run_case(const Case &c, std::string &msg) {
     m.mem = c.content; m.touched = c.touched;
     lv.copy_from(m);
     for (size_t i = 0; i < c.t.regs.size(); i++) { if (c.touched[i]) register_touch(&lv.t, (RegisterHandle)i); else register_untouch(&lv.t, (RegisterHandle)i); }
+    if (c.pre) {
+        // history only: whatever the aborted (or completed) sanitise run restored is taken over; the block write contract is unchanged afterwards
+        cb_read_faults() = c.pre - 1;
+        (void)register_sanitise(&lv.t);
+        cb_read_faults() = -1;
+        lv.snapshot(m.mem);
+        for (size_t i = 0; i < c.t.regs.size(); i++) m.touched[i] = register_was_touched(&lv.t, (RegisterHandle)i);
+    }
     if (c.n > (1u << 20)) {
         // far larger than any table: must be refused (first unmapped address, or a read-only area in front of it) without reading the caller's buffer
         uint64_t a = c.addr;
@@ -141,7 +150,7 @@ static void run() {
     size_t ntables = (a.thorough() ? 40000 : 3000) / a.nshards;
     vp::stats().rule = vp::fmt("enum: %zu generated valid tables per shard; for each table every (address, length) in a window from 2 below the first area to 2 behind the last x 7 word patterns "
                                "(current content; one overlapped register driven to its bound -1/0/+1 through the words inside the window only; non-finite halves for float registers; all-ones; "
-                               "all-zero; random; the current content after one overlapped register was corrupted out of band), applied as a history (content evolves); oracle = overlay on the flat model + per-register decode/constraint + failure class with first address + "
+                               "all-zero; random; the current content after one overlapped register was corrupted out of band), applied as a history (content evolves); a quarter of the writes on tables with a callback-backed area are repeated after a register_sanitise run that a device fault (read callback reports an I/O error from its k-th call on) cut short; oracle = overlay on the flat model + per-register decode/constraint + failure class with first address + "
                                "touched marks + exact-size caller buffer under ASan", ntables);
     if (a.shard == 0) top_area_phase();
     vp::Rng rng(a.seed * 8191 + a.shard);
@@ -155,6 +164,7 @@ static void run() {
         m.load_defaults();
         // registers of areas that do not load defaults may hold anything: give them a decodable content
         for (auto &r : t.regs) if (!m.sane(r) && r.ckind != rm::C_FAIL) m.store(r, rm::canon(r.type, r.def));
+        bool has_cb = false; for (auto &ar : t.areas) if (!ar.membacked && ar.has_read) has_cb = true;
         uint32_t lo = t.areas.front().base >= 2 ? t.areas.front().base - 2 : 0, hi = t.areas.back().end() + 2;
         std::vector<std::pair<uint32_t, uint32_t>> windows;
         if (hi - lo <= 120) { for (uint32_t addr = lo; addr < hi; addr++) for (uint32_t n = 0; addr + n <= hi; n++) windows.push_back({addr, n}); }
@@ -206,6 +216,13 @@ static void run() {
                     }
                     std::string msg, key = run_case(c, msg);
                     if (!key.empty()) { vp::fail(key, msg, ser_case(c)); continue; }
+                    if (has_cb && (pat == 0 || pat == 1 || pat == 5) && rng.chance(1, 4)) {
+                        // side branch: the same write after a register_sanitise run that was cut short by a device fault
+                        Case s2 = c; s2.pre = 1 + (int)rng.below(4);
+                        std::string m2, k2 = run_case(s2, m2);
+                        if (!k2.empty()) vp::fail(k2, m2, ser_case(s2));
+                        vp::cls("write-after-sanitise-cut-short-by-device-fault");
+                    }
                     // evolve the history
                     Expect e = predict(t, m, addr, n, c.words.data());
                     if (e.ok) { for (uint32_t i = 0; i < n; i++) m.word(addr + i) = c.words[i]; for (size_t ri : e.overlapped) m.touched[ri] = true; vp::cls("write-accepted"); }
@@ -237,6 +254,7 @@ static bool replay(const std::string &text) {
         auto w = vp::split(l);
         if (w.empty()) continue;
         if (w[0] == "content" && w.size() >= 2) { size_t i = strtoull(w[1].c_str(), 0, 10); if (i < c.content.size()) for (size_t k = 2; k < w.size(); k++) c.content[i].push_back((uint16_t)strtoul(w[k].c_str(), 0, 10)); }
+        else if (w[0] == "pre" && w.size() >= 2) c.pre = atoi(w[1].c_str());
         else if (w[0] == "touched") for (size_t k = 1; k < w.size(); k++) c.touched.push_back(w[k] == "1");
         else if (w[0] == "bw" && w.size() >= 3) { c.addr = (uint32_t)strtoul(w[1].c_str(), 0, 10); c.n = (uint32_t)strtoul(w[2].c_str(), 0, 10); for (size_t k = 3; k < w.size(); k++) c.words.push_back((uint16_t)strtoul(w[k].c_str(), 0, 10)); }
     }
